@@ -66,6 +66,24 @@ def w_cross(ctx, rng, i):
         ctx.bump("cases_with_an_empty_landmark_group")
     if rng.random() < 0.3:
         s.points = gen.hostile_array(rng, s.points)
+    import menpo.transform as _mt
+    dense_shape = False
+    if isinstance(t, _mt.ThinPlateSplines) and rng.random() < 0.2 and cls == "PointCloud":
+        # a dense shape (a scan of several thousand points) some of whose vertices are the spline's control points themselves
+        import menpo.shape as _ms
+        ctrl = np.asarray(t.source.points, dtype=float)
+        nbig = int(70000 // len(ctrl)) + int(rng.integers(10, 400))
+        big = rng.uniform(-0.55 * tx.BOX, 0.55 * tx.BOX, (nbig, 2))
+        where = rng.choice(nbig, len(ctrl), replace=False)
+        big[where] = ctrl
+        lms_ = {k: v for k, v in s.landmarks.items()} if s.has_landmarks else {}
+        s = _ms.PointCloud(big)
+        for k, v in lms_.items():
+            s.landmarks[k] = v
+        s.landmarks["on_the_control_points"] = _ms.PointCloud(ctrl[: max(2, len(ctrl) // 2)].copy())
+        nlm += 1
+        ctx.bump("dense_shapes_through_a_spline")
+        dense_shape = True
     from menpo.transform.piecewiseaffine.base import AbstractPWA as _PWA
     if isinstance(t, _PWA) and rng.random() < 0.3:
         # a shape that sticks out of the warp's domain: the application is refused - and the shape handed in is as it was
@@ -75,6 +93,8 @@ def w_cross(ctx, rng, i):
     bs = [None, None, 1, 2, 3, 50][rng.integers(0, 6)]
     if has_empty:
         bs = None
+    if dense_shape and not has_empty:
+        bs = [None, 1000, 4097][rng.integers(0, 3)]          # (thousands of one-point batches would only burn time)
     history = int(rng.integers(0, 4))
     if history == 3:
         # the transform's parameters were replaced after it was built (parameter vector, new target): only the new ones count
@@ -92,7 +112,11 @@ def w_cross(ctx, rng, i):
                 ctx.bump("transforms_with_a_bystander_history")
     if history == 1:
         # the same transform object has already been applied to something of the same size
-        other = gen.shape(rng, "PointCloud", d=d, n=s.n_points, scale=0.55 * tx.BOX, centred=True)
+        if dense_shape:
+            import menpo.shape as _ms2
+            other = _ms2.PointCloud(rng.uniform(-0.55 * tx.BOX, 0.55 * tx.BOX, (s.n_points, d)))
+        else:
+            other = gen.shape(rng, "PointCloud", d=d, n=s.n_points, scale=0.55 * tx.BOX, centred=True)
         try:
             t.apply(other)
         except Exception:
